@@ -546,6 +546,22 @@ def run_rates(case):
                     bad('rates/site=%s/scalar-vs-array/%s' % (sg, nme), t2 + 'scalar %r vs array entry %r' % (float(s), v))
         except Exception as e:
             bad('rates/site=%s/scalar-exception' % sg, t2 + '%s: %s' % (type(e).__name__, e))
+    # the same driving forces given as Python / numpy integers (a user typing 500000000 J/m3): same barrier as for the float
+    ints = [i for i, dg in enumerate(dgs) if float(dg).is_integer() and abs(dg) < 2 ** 62]
+    if ints:
+        try:
+            Ri, Gi = nr.nucleationBarrier(np.array([int(dgs[i]) for i in ints], dtype=np.int64), prec)
+            Ri, Gi = np.atleast_1d(np.asarray(Ri, dtype=float)), np.atleast_1d(np.asarray(Gi, dtype=float))
+            sc = [tuple(float(np.squeeze(v)) for v in nr.nucleationBarrier(int(dgs[i]), prec)) for i in ints]
+            nst += 2 * len(ints)
+            for j, i in enumerate(ints):
+                for form, (rr, gg) in (('array', (Ri[j], Gi[j])), ('scalar', sc[j])):
+                    if not (abs(rr - float(Ra[i])) <= 1e-12 * abs(float(Ra[i])) and abs(gg - float(Ga[i])) <= 1e-12 * abs(float(Ga[i]))):
+                        bad('rates/site=%s/integer-driving-force/%s' % (sg, form),
+                            'dG = %d given as an integer (%s): Rcrit=%r Gcrit=%r, as a float: Rcrit=%r Gcrit=%r' % (int(dgs[i]), form, rr, gg, float(Ra[i]), float(Ga[i])))
+                        break
+        except Exception as e:
+            bad('rates/site=%s/integer-driving-force/exception' % sg, '%s: %s' % (type(e).__name__, e))
     # "the rate is zero for non-positive driving force" at every time, incubation included: whole-array and scalar calls
     nonpos = [i for i, dg in enumerate(dgs) if dg <= 0]
     if nonpos:
